@@ -1,65 +1,203 @@
 ------------------------------ MODULE SpscChan ------------------------------
-(* DRAFT (round 0).  src/sync/spsc.rs with a *coroutine* receiver: the receiver does not
-   register itself; it yields and the worker-side Park::subscribe stores it in wait_co and
-   re-checks -- only queue emptiness as written; Fix3 adds the `channels == 0` re-check. *)
-EXTENDS Naturals, Sequences, TLC
-CONSTANTS NMsg, Fix3
-VARIABLES queue, channels, waitCo, co, pcR, pcK, pcS, sent, got, ret
-vars == <<queue, channels, waitCo, co, pcR, pcK, pcS, sent, got, ret>>
+(* Literal model of src/sync/spsc.rs: one Sender (send, drop), one Receiver (recv, try_recv, drop).
+   pc[a] = name of the verification point the actor is stopped at; labels without a dot are
+   internal.  The queue is the L0 contract (atomic FIFO, C03).
 
-Init == /\ queue = <<>> /\ channels = 1 /\ waitCo = FALSE /\ co = "user"
-        /\ pcR = "recv.pop" /\ pcK = "idle" /\ pcS = (IF NMsg > 0 THEN "send.push" ELSE "drop.store")
-        /\ sent = 0 /\ got = <<>> /\ ret = "none"
+   The receiver blocks in two different ways:
+   * a *coroutine* (RxCo = TRUE) yields with a 'Park' event source; only the kernel side of the
+     yield (Park::subscribe, running on the worker after the stack switch: the points named spscsub.store, spscsub.recheck, spscsub.take)
+     stores the coroutine into `wait_co`, re-checks the queue and possibly takes itself out again.
+     A sender that takes the coroutine while the kernel side is still at work resumes it at once,
+     but the resumed coroutine cannot pass Park::drop before the kernel side has finished
+     (wait_kernel), so the actor's steps stay sequential;
+   * a *thread* stores a thread handle into `wait_co`, re-checks with try_recv and calls
+     std::thread::park() (a binary token).
 
-Running == co = "user"
-RPop ==      \* try_recv: queue.pop()
-  /\ Running /\ pcR = "recv.pop"
-  /\ IF queue # <<>> THEN queue' = Tail(queue) /\ got' = Append(got, Head(queue)) /\ pcR' = "recv.pop"
-                     ELSE UNCHANGED <<queue, got>> /\ pcR' = "recv.load_channels"
-  /\ UNCHANGED <<channels, waitCo, co, pcK, pcS, sent, ret>>
-RLoadChannels ==
-  /\ Running /\ pcR = "recv.load_channels"
-  /\ pcR' = IF channels > 0 THEN "recv.yield" ELSE "recv.repop"
-  /\ UNCHANGED <<queue, channels, waitCo, co, pcK, pcS, sent, got, ret>>
-RRepop ==
-  /\ Running /\ pcR = "recv.repop"
-  /\ IF queue # <<>> THEN queue' = Tail(queue) /\ got' = Append(got, Head(queue)) /\ pcR' = "recv.pop" /\ UNCHANGED ret
-                     ELSE UNCHANGED <<queue, got>> /\ ret' = "Disconnected" /\ pcR' = "done"
-  /\ UNCHANGED <<channels, waitCo, co, pcK, pcS, sent>>
-RYield ==    \* yield_with(&park): switch stacks, the worker runs subscribe()
-  /\ Running /\ pcR = "recv.yield" /\ co' = "switching" /\ pcK' = "sub.store_co" /\ pcR' = "recv.pop"
-  /\ UNCHANGED <<queue, channels, waitCo, pcS, sent, got, ret>>
-KStoreCo ==
-  /\ pcK = "sub.store_co" /\ waitCo' = TRUE /\ co' = "slot" /\ pcK' = "sub.recheck"
-  /\ UNCHANGED <<queue, channels, pcR, pcS, sent, got, ret>>
-KRecheck ==
-  /\ pcK = "sub.recheck"
-  /\ pcK' = IF queue # <<>> \/ (Fix3 /\ channels = 0) THEN "sub.take" ELSE "idle"
-  /\ UNCHANGED <<queue, channels, waitCo, co, pcR, pcS, sent, got, ret>>
-KTake ==
-  /\ pcK = "sub.take" /\ pcK' = "idle"
-  /\ IF waitCo THEN waitCo' = FALSE /\ co' = "user" ELSE UNCHANGED <<waitCo, co>>
-  /\ UNCHANGED <<queue, channels, pcR, pcS, sent, got, ret>>
-SPush ==
-  /\ pcS = "send.push" /\ queue' = Append(queue, sent + 1) /\ sent' = sent + 1 /\ pcS' = "send.take"
-  /\ UNCHANGED <<channels, waitCo, co, pcR, pcK, got, ret>>
-STake ==     \* wait_co.take() -> unpark (schedule)
-  /\ pcS \in {"send.take", "drop.take"}
-  /\ IF waitCo THEN waitCo' = FALSE /\ co' = "queued" ELSE UNCHANGED <<waitCo, co>>
-  /\ pcS' = IF pcS = "drop.take" THEN "done" ELSE IF sent < NMsg THEN "send.push" ELSE "drop.store"
-  /\ UNCHANGED <<queue, channels, pcR, pcK, sent, got, ret>>
-SDropStore ==
-  /\ pcS = "drop.store" /\ channels' = 0 /\ pcS' = "drop.take"
-  /\ UNCHANGED <<queue, waitCo, co, pcR, pcK, sent, got, ret>>
-Resume == /\ co = "queued" /\ co' = "user"
-          /\ UNCHANGED <<queue, channels, waitCo, pcR, pcK, pcS, sent, got, ret>>
-AllOver == pcR = "done" /\ pcS = "done" /\ pcK = "idle"
-Stutter == AllOver /\ UNCHANGED vars
-Next == RPop \/ RLoadChannels \/ RRepop \/ RYield \/ KStoreCo \/ KRecheck \/ KTake
-        \/ SPush \/ STake \/ SDropStore \/ Resume \/ Stutter
+   Fix3 = FALSE is the pinned tree: subscribe re-checks only `queue.is_empty()`, not `channels`, so a
+   sender that drops between the receiver's failed try_recv and its registration is missed and
+   the coroutine sleeps for ever (defect F3).  Fix3 = TRUE re-checks both.                 *)
+EXTENDS Integers, FiniteSets, Sequences, TLC
+
+CONSTANTS Actors, Rx, Prog, RxCo, Fix3
+
+VARIABLES queue, waitCo, channels, portDropped, thToken,
+          pc, ip, mode, nsent, rret, woken, parked,
+          pushed, sentOk, got, dropped, discAt
+vars == <<queue, waitCo, channels, portDropped, thToken, pc, ip, mode, nsent, rret, woken, parked,
+          pushed, sentOk, got, dropped, discAt>>
+
+Op(a) == Prog[a][ip[a]]
+FirstPc(op) == CASE op = "send" -> "spsc.send.load_port" [] op = "drop" -> "spsc.drop.store"
+                 [] op = "rdrop" -> "spsc.port.store" [] OTHER -> "spsc.try.pop"
+StartPc(a) == IF Len(Prog[a]) = 0 THEN "done" ELSE FirstPc(Prog[a][1])
+
+Init ==
+  /\ queue = <<>> /\ waitCo = "none" /\ channels = 1 /\ portDropped = FALSE /\ thToken = FALSE
+  /\ ip = [a \in Actors |-> 1] /\ pc = [a \in Actors |-> StartPc(a)]
+  /\ mode = "plain"      \* which try_recv of the current receiver op: "plain" | "first" | "after"
+  /\ nsent = [a \in Actors |-> 0] /\ rret = "none"
+  /\ woken = FALSE       \* the suspended / registering coroutine has been taken out of wait_co and resumed
+  /\ parked = FALSE
+  /\ pushed = {} /\ sentOk = {} /\ got = <<>> /\ dropped = {} /\ discAt = <<>>
+
+Goto(a, l) == pc' = [pc EXCEPT ![a] = l]
+UNCH_Q == UNCHANGED <<queue, waitCo, channels, portDropped>>
+UNCH_H == UNCHANGED <<pushed, sentOk, got, dropped, discAt>>
+UNCH_R == UNCHANGED <<mode, rret>>
+UNCH_W == UNCHANGED <<thToken, woken, parked>>
+
+\* wait_co.take() + unpark() by the sender side (send / drop): returns the primed conjuncts
+\* for everything a wake-up touches; `next` is where the taker continues
+TakeAndWake(a, next) ==
+  /\ waitCo' = "none"
+  /\ CASE waitCo = "co" ->     \* coroutine: scheduled; if it is fully suspended it runs on from here
+            /\ woken' = TRUE /\ UNCHANGED thToken
+            /\ IF pc[Rx] = "parked"
+                 THEN parked' = FALSE /\ pc' = [pc EXCEPT ![a] = next, ![Rx] = "resumed"]
+                 ELSE UNCHANGED parked /\ Goto(a, next)
+       [] waitCo = "th" ->     \* thread: Thread::unpark
+            /\ UNCHANGED woken
+            /\ IF pc[Rx] = "parked"
+                 THEN parked' = FALSE /\ UNCHANGED thToken /\ pc' = [pc EXCEPT ![a] = next, ![Rx] = "resumed"]
+                 ELSE thToken' = TRUE /\ UNCHANGED parked /\ Goto(a, next)
+       [] OTHER -> UNCHANGED <<thToken, woken, parked>> /\ Goto(a, next)
+
+(* ------------------------------- sender ------------------------------- *)
+SendLoadPort(a) ==
+  /\ pc[a] = "spsc.send.load_port"
+  /\ Goto(a, IF portDropped THEN "next" ELSE "spsc.send.push")
+  /\ UNCHANGED <<ip, nsent>> /\ UNCH_Q /\ UNCH_H /\ UNCH_R /\ UNCH_W
+SendPush(a) ==
+  /\ pc[a] = "spsc.send.push"
+  /\ LET m == <<a, nsent[a] + 1>> IN queue' = Append(queue, m) /\ pushed' = pushed \cup {m}
+  /\ nsent' = [nsent EXCEPT ![a] = @ + 1] /\ Goto(a, "spsc.send.take")
+  /\ UNCHANGED <<waitCo, channels, portDropped, ip, sentOk, got, dropped, discAt>> /\ UNCH_R /\ UNCH_W
+SendTake(a) ==
+  /\ pc[a] = "spsc.send.take"
+  /\ sentOk' = sentOk \cup {<<a, nsent[a]>>}
+  /\ TakeAndWake(a, "next")
+  /\ UNCHANGED <<queue, channels, portDropped, ip, nsent, pushed, got, dropped, discAt>> /\ UNCH_R
+DropStore(a) ==
+  /\ pc[a] = "spsc.drop.store"
+  /\ channels' = 0 /\ Goto(a, "spsc.drop.take")
+  /\ UNCHANGED <<queue, waitCo, portDropped, ip, nsent>> /\ UNCH_H /\ UNCH_R /\ UNCH_W
+DropTake(a) ==
+  /\ pc[a] = "spsc.drop.take"
+  /\ TakeAndWake(a, "next")
+  /\ UNCHANGED <<queue, channels, portDropped, ip, nsent>> /\ UNCH_H /\ UNCH_R
+
+(* ------------------------------- receiver ------------------------------- *)
+Deliver(m) == got' = Append(got, m)
+AfterResult == IF mode = "first" THEN "spsc.recv.clear" ELSE "next"
+OnEmpty == CASE Op(Rx) = "try" -> "next"
+             [] mode = "plain" -> (IF RxCo THEN "spsc.recv.yield" ELSE "spsc.recv.reg")
+             [] mode = "first" -> "th.park"             \* thread: registered, re-check said Empty
+             [] OTHER -> "recv.loop"                    \* after the wake-up: Empty -> Receiver::recv loops
+TryPop ==
+  /\ pc[Rx] = "spsc.try.pop"
+  /\ IF queue # <<>>
+       THEN queue' = Tail(queue) /\ Deliver(Head(queue)) /\ rret' = "Ok" /\ Goto(Rx, AfterResult)
+       ELSE UNCHANGED <<queue, got, rret>> /\ Goto(Rx, "spsc.try.load_ch")
+  /\ UNCHANGED <<waitCo, channels, portDropped, ip, mode, nsent, pushed, sentOk, dropped, discAt>> /\ UNCH_W
+TryLoadCh ==
+  /\ pc[Rx] = "spsc.try.load_ch"
+  /\ IF channels > 0 THEN Goto(Rx, OnEmpty) /\ rret' = "Empty"
+                     ELSE Goto(Rx, "spsc.try.repop") /\ UNCHANGED rret
+  /\ UNCHANGED <<ip, mode, nsent>> /\ UNCH_Q /\ UNCH_H /\ UNCH_W
+TryRepop ==
+  /\ pc[Rx] = "spsc.try.repop"
+  /\ IF queue # <<>>
+       THEN queue' = Tail(queue) /\ Deliver(Head(queue)) /\ rret' = "Ok" /\ UNCHANGED discAt
+       ELSE UNCHANGED <<queue, got>> /\ rret' = "Disconnected" /\ discAt' = queue
+  /\ Goto(Rx, AfterResult)
+  /\ UNCHANGED <<waitCo, channels, portDropped, ip, mode, nsent, pushed, sentOk, dropped>> /\ UNCH_W
+\* thread receiver: register, re-check, std::thread::park
+RecvReg ==
+  /\ pc[Rx] = "spsc.recv.reg"
+  /\ waitCo' = "th" /\ mode' = "first" /\ Goto(Rx, "spsc.try.pop")
+  /\ UNCHANGED <<queue, channels, portDropped, ip, nsent, rret>> /\ UNCH_H /\ UNCH_W
+RecvClear ==
+  /\ pc[Rx] = "spsc.recv.clear"
+  /\ waitCo' = "none" /\ Goto(Rx, "next")
+  /\ UNCHANGED <<queue, channels, portDropped, ip, nsent>> /\ UNCH_H /\ UNCH_R /\ UNCH_W
+\* internal: std::thread::park()
+ThPark ==
+  /\ pc[Rx] = "th.park"
+  /\ IF thToken THEN thToken' = FALSE /\ Goto(Rx, "resumed") /\ UNCHANGED parked
+                ELSE parked' = TRUE /\ Goto(Rx, "parked") /\ UNCHANGED thToken
+  /\ UNCHANGED <<ip, nsent, woken>> /\ UNCH_Q /\ UNCH_H /\ UNCH_R
+\* coroutine receiver: yield; the kernel side registers, re-checks, maybe takes itself back
+RecvYield ==
+  /\ pc[Rx] = "spsc.recv.yield"
+  /\ woken' = FALSE /\ Goto(Rx, "spscsub.store")
+  /\ UNCHANGED <<ip, nsent, thToken, parked>> /\ UNCH_Q /\ UNCH_H /\ UNCH_R
+SubStore ==
+  /\ pc[Rx] = "spscsub.store"
+  /\ waitCo' = "co" /\ Goto(Rx, "spscsub.recheck")
+  /\ UNCHANGED <<queue, channels, portDropped, ip, nsent>> /\ UNCH_H /\ UNCH_R /\ UNCH_W
+SubRecheck ==
+  /\ pc[Rx] = "spscsub.recheck"
+  /\ Goto(Rx, IF queue # <<>> \/ (Fix3 /\ channels = 0) THEN "spscsub.take" ELSE "sub.end")
+  /\ UNCHANGED <<ip, nsent>> /\ UNCH_Q /\ UNCH_H /\ UNCH_R /\ UNCH_W
+SubTake ==
+  /\ pc[Rx] = "spscsub.take"
+  /\ IF waitCo = "co" THEN waitCo' = "none" /\ woken' = TRUE       \* run_coroutine(co) right here
+                      ELSE UNCHANGED <<waitCo, woken>>
+  /\ Goto(Rx, "sub.end")
+  /\ UNCHANGED <<queue, channels, portDropped, ip, nsent, thToken, parked>> /\ UNCH_H /\ UNCH_R
+\* internal: the kernel side is done; a coroutine that was taken meanwhile runs on, else it sleeps
+SubEnd ==
+  /\ pc[Rx] = "sub.end"
+  /\ IF woken THEN Goto(Rx, "resumed") /\ UNCHANGED parked
+              ELSE parked' = TRUE /\ Goto(Rx, "parked")
+  /\ UNCHANGED <<ip, nsent, thToken, woken>> /\ UNCH_Q /\ UNCH_H /\ UNCH_R
+\* internal: back in InnerQueue::recv after the wake-up: try_recv again
+Resumed ==
+  /\ pc[Rx] = "resumed"
+  /\ mode' = "after" /\ Goto(Rx, "spsc.try.pop")
+  /\ UNCHANGED <<ip, nsent, rret>> /\ UNCH_Q /\ UNCH_H /\ UNCH_W
+RecvLoop ==
+  /\ pc[Rx] = "recv.loop"
+  /\ mode' = "plain" /\ Goto(Rx, "spsc.try.pop")
+  /\ UNCHANGED <<ip, nsent, rret>> /\ UNCH_Q /\ UNCH_H /\ UNCH_W
+PortStore ==
+  /\ pc[Rx] = "spsc.port.store"
+  /\ portDropped' = TRUE /\ Goto(Rx, "port.drain")
+  /\ UNCHANGED <<queue, waitCo, channels, ip, nsent>> /\ UNCH_H /\ UNCH_R /\ UNCH_W
+PortDrain ==
+  /\ pc[Rx] = "port.drain"
+  /\ dropped' = dropped \cup {queue[i] : i \in DOMAIN queue} /\ queue' = <<>> /\ Goto(Rx, "next")
+  /\ UNCHANGED <<waitCo, channels, portDropped, ip, nsent, pushed, sentOk, got, discAt>> /\ UNCH_R /\ UNCH_W
+
+NextOp(a) ==
+  /\ pc[a] = "next"
+  /\ IF ip[a] < Len(Prog[a])
+       THEN ip' = [ip EXCEPT ![a] = ip[a] + 1] /\ Goto(a, FirstPc(Prog[a][ip[a] + 1]))
+       ELSE UNCHANGED ip /\ Goto(a, "done")
+  /\ mode' = (IF a = Rx THEN "plain" ELSE mode)
+  /\ UNCHANGED <<nsent, rret>> /\ UNCH_Q /\ UNCH_H /\ UNCH_W
+
+RStep == TryPop \/ TryLoadCh \/ TryRepop \/ RecvReg \/ RecvClear \/ RecvYield \/ SubStore \/ SubRecheck \/ SubTake \/ PortStore
+Step(a) == \/ SendLoadPort(a) \/ SendPush(a) \/ SendTake(a) \/ DropStore(a) \/ DropTake(a)
+           \/ (a = Rx /\ RStep)
+Internal(a) == NextOp(a) \/ (a = Rx /\ (ThPark \/ SubEnd \/ Resumed \/ RecvLoop \/ PortDrain))
+InternalPcs == {"next", "th.park", "sub.end", "resumed", "recv.loop", "port.drain"}
+Obs(a) == -1
+Cancel(a) == FALSE /\ UNCHANGED vars
+
+Finished(a) == pc[a] \in {"done", "dead"}
+\* a recv() whose sender is alive and silent blocks for ever by specification
+LegitParked == pc[Rx] = "parked" /\ channels > 0 /\ ~thToken
+Terminal == (\A a \in Actors : Finished(a) \/ (a = Rx /\ LegitParked)) /\ UNCHANGED vars
+Next == (\E a \in Actors : Step(a) \/ Internal(a)) \/ Terminal
 Spec == Init /\ [][Next]_vars
-DrainThenDisconnected == ret = "Disconnected" => Len(got) = NMsg
-InOrder == \A i \in DOMAIN got : got[i] = i
-SlotImpliesSuspended == waitCo => co = "slot"
-\* NoHangAfterLastSender == TLC deadlock check
+-----------------------------------------------------------------------------
+GotSet == {got[i] : i \in DOMAIN got}
+DeliveredOnce  == Cardinality(GotSet) = Len(got) /\ GotSet \cap dropped = {}
+NoInvented     == GotSet \subseteq pushed
+FifoOrder      == \A i, j \in DOMAIN got : i < j => got[i][2] < got[j][2]
+DrainThenDisconnected == (rret = "Disconnected" => (discAt = <<>> /\ channels = 0))
+NothingLost == (\A a \in Actors : Finished(a)) =>
+                 (sentOk \subseteq (GotSet \cup dropped \cup {queue[i] : i \in DOMAIN queue}))
+\* NoHangAfterLastSender / WokenBySend: deadlock-freedom (Terminal is the only legitimate rest)
 =============================================================================
